@@ -186,8 +186,8 @@ def line_reader(text):
     """independent reader of a generated unit: one line per entry, no trimming, no continuation"""
     secs, cur, err = [], None, None
     for line in text.split('\n'):
-        if line == '':
-            continue
+        if line == '' or line[0] in '#;':
+            continue   # blank and comment lines are not entries (a reader ignores them wherever they stand)
         if line.startswith('[') and line.endswith(']'):
             cur = (line[1:-1], [])
             secs.append(cur)
